@@ -211,7 +211,14 @@ template<int DD> void history_t(Case& c) {
 			case 18: { if(!A.a || !B.a || a == b || D < 2 || B.m.n() == 0) break; c06 = true; opk = "assign(first,last)(rows)"; d << opk << "(" << a << "<-rows of " << b << ")"; cur_op = d.str(); op(opk); softcfg().opk = opk; if constexpr(DD >= 2) { A.a->assign(B.a->begin(), B.a->end()); } A.m = B.m; A.m.base_known = false; break; }
 			case 19: { if(!A.a || A.m.n() == 0) break; opk = "element-write"; L k = g.below(A.m.n()); long id = next_id++; d << opk << "(" << a << ",#" << k << ")"; cur_op = d.str(); op(opk); softcfg().opk = opk;
 				if constexpr(DD == 0) { *A.a->data_elements() = mk(id); } else { std::vector<L> ix; MV::root(A.m.ext).unlin(k, ix); { std::vector<L> fs; std::apply([&](auto const&... x) { (fs.push_back(L(x.first())), ...); }, A.a->extensions().base()); for(std::size_t q = 0; q < ix.size(); ++q) ix[q] += (A.m.base_known ? A.m.base[q] : fs[q]); } brk(*A.a, ix) = mk(id); } A.m.ids[std::size_t(k)] = id; break; }
-			case 20: { if(!B.a || a == b) break; opk = "decay(+)"; d << opk << "(" << a << "<-+" << b << ")"; cur_op = d.str(); op(opk); softcfg().opk = opk; A.a.reset(); if(g.chance(1, 2)) A.a.emplace(+*B.a); else A.a.emplace(B.a->decay()); A.m = B.m; A.m.base_known = false; { auto al = A.a->get_allocator(); A.aid = al.id; A.agen = al.gen; } count("decay"); break; }
+			case 20: { if(!B.a || a == b) break; opk = "decay(+)"; d << opk << "(" << a << "<-+" << b << ")"; cur_op = d.str(); op(opk); softcfg().opk = opk; A.a.reset(); { int const form = int(g.below(3)); if(form == 0) A.a.emplace(+*B.a); else if(form == 1) A.a.emplace(B.a->decay()); else {
+#if !(H_T == 2 && H_D == 1)
+					A.a.emplace(+std::move(*B.a)); count("decay(+rvalue)");
+#else
+					A.a.emplace(+*B.a); count("not-compilable:+std::move(array<string,1>) (operator+()&& brace-initialises: the initializer_list constructor is tried)");
+#endif
+				} }  // unary plus of an rvalue is still a copy: the operand keeps its value
+				A.m = B.m; A.m.base_known = false; { auto al = A.a->get_allocator(); A.aid = al.id; A.agen = al.gen; } count("decay"); break; }
 			case 21: { if(!A.a) break; c06 = true; if(D == 0 || D > 3) break;  // nested initializer lists (compile-time shapes)
 				opk = "assign-init-list"; d << opk << "(" << a << ")"; cur_op = d.str(); op(opk); softcfg().opk = opk; long i0 = next_id; next_id += 6;
 				if constexpr(DD == 1) { int w = int(g.below(3)); if(w == 0) { *A.a = {mk(i0), mk(i0 + 1), mk(i0 + 2)}; A.m.ext = {3}; A.m.ids = {i0, i0 + 1, i0 + 2}; } else if(w == 1) { *A.a = {mk(i0)}; A.m.ext = {1}; A.m.ids = {i0}; } else { *A.a = {mk(i0), mk(i0 + 1), mk(i0 + 2), mk(i0 + 3), mk(i0 + 4)}; A.m.ext = {5}; A.m.ids = {i0, i0 + 1, i0 + 2, i0 + 3, i0 + 4}; } }
